@@ -140,28 +140,26 @@ fn c15_twcc_roundtrip_4() {
 }
 
 // ---------------------------------------------------------------- NACK (RFC 4585 6.2.1)
-/// membership in the decoded list
+/// RFC 4585 6.2.1: a (PID, BLP) pair names PID and PID+i+1 for every set bit i of BLP
+fn pair_names(pid: u16, blp: u16, x: u16) -> bool {
+    let d = x.wrapping_sub(pid);
+    d == 0 || (d >= 1 && d <= 16 && (blp >> (d - 1)) & 1 == 1)
+}
+fn pairs_name(pairs: &[(u16, u16)], x: u16) -> bool {
+    let mut k = 0; while k < pairs.len() { if pair_names(pairs[k].0, pairs[k].1, x) { return true; } k += 1; } false
+}
 fn contains(v: &[u16], x: u16) -> bool { let mut i = 0; while i < v.len() { if v[i] == x { return true; } i += 1; } false }
-/// pack_nack_pairs + parse side: the SET of lost sequence numbers is preserved, also across
-/// 65535 -> 0, and BLP only names pid+1..pid+16
+/// pack_nack_pairs: the SET of sequence numbers named by the pairs equals the input set — every
+/// input is named, and ANY u16 that is named was in the input (also across 65535 -> 0)
 fn nack_obligation<const N: usize>() {
     let seqs: [u16; N] = kani::any();
     let pairs = pack_nack_pairs(&seqs);
     assert!(pairs.len() >= 1 && pairs.len() <= N);
-    // decode exactly like RFC 4585: pid, then pid+i+1 for each set bit i
-    let mut dec: Vec<u16> = Vec::new();
-    let mut k = 0;
-    while k < pairs.len() {
-        let (pid, blp) = pairs[k];
-        dec.push(pid);
-        let mut bit = 0u16;
-        while bit < 16 { if (blp >> bit) & 1 == 1 { dec.push(pid.wrapping_add(bit + 1)); } bit += 1; }
-        k += 1;
-    }
     let mut i = 0;
-    while i < N { assert!(contains(&dec, seqs[i])); i += 1; }
-    let mut j = 0;
-    while j < dec.len() { assert!(contains(&seqs, dec[j])); j += 1; }
+    while i < N { assert!(pairs_name(&pairs, seqs[i])); i += 1; }
+    let x: u16 = kani::any();
+    if pairs_name(&pairs, x) { assert!(contains(&seqs, x)); }
+    core::mem::forget(pairs);
 }
 /// stand-in for std's sort_unstable (pattern-defeating quicksort does not finish in CBMC):
 /// assumed contract of the dependency = "sorts ascending"; this insertion sort satisfies it
@@ -173,21 +171,30 @@ fn ins_sort_u16<T: Ord>(v: &mut [T]) {
         i += 1;
     }
 }
+/// stand-in for Vec::dedup (std's version walks raw pointers under a drop guard)
+fn simple_dedup<T: PartialEq, A: core::alloc::Allocator>(v: &mut Vec<T, A>) {
+    let mut i = 1;
+    while i < v.len() { if v[i] == v[i - 1] { v.remove(i); } else { i += 1; } }
+}
 #[kani::proof]
-#[kani::unwind(20)]
+#[kani::unwind(5)]
 #[kani::stub(<[u16]>::sort_unstable, ins_sort_u16)]
+#[kani::stub(std::vec::Vec::<u16>::dedup, simple_dedup)]
 fn c15_nack_set_preserved_2() { nack_obligation::<2>(); }
 #[kani::proof]
-#[kani::unwind(20)]
+#[kani::unwind(6)]
 #[kani::stub(<[u16]>::sort_unstable, ins_sort_u16)]
+#[kani::stub(std::vec::Vec::<u16>::dedup, simple_dedup)]
 fn c15_nack_set_preserved_3() { nack_obligation::<3>(); }
 #[kani::proof]
-#[kani::unwind(20)]
+#[kani::unwind(7)]
 #[kani::stub(<[u16]>::sort_unstable, ins_sort_u16)]
+#[kani::stub(std::vec::Vec::<u16>::dedup, simple_dedup)]
 fn c15_nack_set_preserved_4() { nack_obligation::<4>(); }
 #[kani::proof]
-#[kani::unwind(20)]
+#[kani::unwind(18)]
 #[kani::stub(<[u16]>::sort_unstable, ins_sort_u16)]
+#[kani::stub(std::vec::Vec::<u16>::dedup, simple_dedup)]
 fn c15_nack_body_roundtrip_pair() {
     // build_nack_body / parse_nack_body on one (pid, blp) worth of sequence numbers
     let pid: u16 = kani::any();
@@ -408,12 +415,24 @@ fn c15_set_keeps_other_extension_4() { set_keeps_others_obligation::<4>(); }
 #[kani::proof]
 #[kani::unwind(12)]
 fn c07_set_extension_total_4() { set_total_obligation::<4>(); }
+/// cheaper variant for the quick tier: the received block is one element header (symbolic id and
+/// length nibble) followed by three zero bytes
+#[kani::proof]
+#[kani::unwind(12)]
+fn c07_set_extension_total_first_elem() {
+    let e: [u8; 4] = [kani::any(), 0, 0, 0];
+    let mut h = any_header(0, Some(RtpHeaderExtension { profile: 0xBEDE, data: static_bytes_of(e) }));
+    let id: u8 = kani::any();
+    let d: [u8; 1] = kani::any();
+    let r = h.set_extension(id, &d);
+    core::mem::forget(r); core::mem::forget(h);
+}
 
 // ---------------------------------------------------------------- C07: totality of the RTCP sub-parsers
 macro_rules! sub_total {
     ($name:ident, $f:ident, $n:expr) => {
         #[kani::proof]
-        #[kani::unwind(40)]
+        #[kani::unwind(34)]
         fn $name() {
             let body: [u8; $n] = kani::any();
             let r = $f(kani::any::<u8>() & 0x1F, &body);
@@ -422,7 +441,7 @@ macro_rules! sub_total {
     };
     ($name:ident, $f:ident, $n:expr, nofmt) => {
         #[kani::proof]
-        #[kani::unwind(40)]
+        #[kani::unwind(20)]
         fn $name() {
             let body: [u8; $n] = kani::any();
             let r = $f(&body);
@@ -523,21 +542,34 @@ fn c15_bye_reason_length_300() {
 }
 
 
-// ---------------------------------------------------------------- compound walker (C07 + C15)
+// ---------------------------------------------------------------- compound walker (C07)
+// One harness per (length N, packet type): the type octet and the length-in-words field are
+// written as constants (one sub-packet of exactly N bytes) so that CBMC's constant propagation
+// prunes the other sub-parsers and the second loop iteration; with a symbolic type or length even
+// 4 bytes do not finish (every iteration re-enters from_utf8_lossy of the SDES/BYE parsers).
+// Version, padding bit, count, body and the padding count octet are symbolic.
 macro_rules! walker_total {
-    ($name:ident, $n:expr) => {
+    ($name:ident, $n:expr, $pt:expr) => {
         #[kani::proof]
-        #[kani::unwind(8)]
+        #[kani::unwind(34)]
         #[kani::stub(tracing::callsite::DefaultCallsite::interest, st_interest)]
         #[kani::stub(tracing::__macro_support::__is_enabled, st_enabled)]
         #[kani::stub(tracing::Event::dispatch, st_dispatch)]
         fn $name() {
-            let raw: [u8; $n] = kani::any();
+            let mut raw: [u8; $n] = kani::any();
+            raw[1] = $pt;
+            raw[2] = 0;
+            raw[3] = ($n / 4 - 1) as u8;
             let r = parse_rtcp_packets(&raw, None);
+            kani::cover!(r.is_ok());
             core::mem::forget(r);
         }
     };
 }
-walker_total!(c07_parse_rtcp_packets_4, 4);
-walker_total!(c07_parse_rtcp_packets_8, 8);
-walker_total!(c07_parse_rtcp_packets_12, 12);
+walker_total!(c07_walker_unknown_4, 4, 0);
+walker_total!(c07_walker_unknown_8, 8, 0);
+walker_total!(c07_walker_xr_8, 8, 207);
+walker_total!(c07_walker_rr_8, 8, 201);
+walker_total!(c07_walker_psfb_12, 12, 206);
+walker_total!(c07_walker_rtpfb_16, 16, 205);
+walker_total!(c07_walker_sr_28, 28, 200);
